@@ -80,18 +80,25 @@ def gen_start(rng: random.Random, now_us: int, young_ok: bool = True) -> str:
 
 
 def gen_event_opts(rng: random.Random, kinds: list[str]) -> dict[str, str]:
+    """Event schedules.  The interval is at least 0.1 s of wall time so that a segment carries a bounded
+    number of events (a denser schedule is legal but makes one request cost minutes of CPU)."""
     q: dict[str, str] = {"events": ",".join(kinds)}
     for k in kinds:
+        ts = 100
+        if rng.random() < 0.5:
+            ts = rng.choice([1, 10, 100, 1000, 90000])
+            q[f"{k}__timescale"] = str(ts)
         if rng.random() < 0.6:
-            q[f"{k}__interval"] = str(rng.choice([100, 250, 400, 1000, 1500, 4000, 7]))
+            secs = rng.choice([0.1, 0.25, 0.4, 1, 1.5, 4, 7, 10, 40])
+            q[f"{k}__interval"] = str(max(1, int(round(secs * ts))))
+        elif ts < 10:
+            q[f"{k}__interval"] = str(rng.choice([1, 2, 4]))
         if rng.random() < 0.5:
-            q[f"{k}__timescale"] = str(rng.choice([1, 10, 100, 1000, 90000]))
-        if rng.random() < 0.5:
-            q[f"{k}__start"] = str(rng.choice([0, 1, 50, 399, 4000]))
+            q[f"{k}__start"] = str(int(rng.choice([0, 0.01, 0.5, 3.99, 40]) * ts))
         if rng.random() < 0.5:
             q[f"{k}__count"] = str(rng.choice([0, 1, 2, 5, 40]))
         if rng.random() < 0.4:
-            q[f"{k}__duration"] = str(rng.choice([1, 50, 200, 1000]))
+            q[f"{k}__duration"] = str(max(1, int(rng.choice([0.01, 0.5, 2, 10]) * ts)))
         if rng.random() < 0.5:
             q[f"{k}__inband"] = rng.choice(["1", "0"])
         if rng.random() < 0.4:
